@@ -54,7 +54,7 @@ abbrev BzDecoder [DecOps] (R : Type) := Dec .bzip2 R
 abbrev ZstdDecoder [DecOps] (R : Type) := Dec .zstd R
 abbrev BufReader [DecOps] (R : Type) := Dec .bufreader R
 
-instance [DecOps] {k : DecKind} {R : Type} [Rs.Read R] : Rs.Read (Dec k R) :=
+@[instance_reducible] instance readDec [DecOps] {k : DecKind} {R : Type} [Rs.Read R] : Rs.Read (Dec k R) :=
   ⟨fun d n => match DecOps.read k d.st d.inner n with
     | (r, s, i) => (r, ⟨s, i⟩)⟩
 
